@@ -1,13 +1,16 @@
 import PMH.Proofs.RealAnalysis
+import PMH.Proofs.Exp01Law
 /-!
 # C16 — the truncated-exponential sampler: range, exact acceptance region, target density
 
 Model: `PMH.Exp01` (`Model/Exp01.lean`), transcription of `ExpRestricted01::{new, sample}`, generic in the
-scalar and in the source of uniform draws; here instantiated at `ℝ` (`RA.realOps`).  The probabilistic
-reading (a uniform point in a region has an abscissa with density ∝ the region's height — one Fubini
-step) is not mechanised; what is proved is everything that depends on the code: every returned value is
-in `[0,1)` for every λ > 0 and every input stream, the two cheap acceptance tests are sound w.r.t. the
-exact one, and the mixture of the two branches has exactly the density `λ e^{-λx}/(1-e^{-λ})`.
+scalar and in the source of uniform draws; here instantiated at `ℝ` (`RA.realOps`).  Proved: every
+returned value is in `[0,1)` for every λ > 0 and every input stream; the two cheap acceptance tests are
+sound w.r.t. the exact one; the mixture of the two branches has exactly the density
+`λ e^{-λx}/(1-e^{-λ})`; and (`Proofs/Exp01Law.lean`) the LAW of the model itself: fed with i.i.d. uniform
+draws on any probability space, `P(sample < x) = (1-e^{-λx})/(1-e^{-λ}) − δ` with the fuel defect
+`0 ≤ δ ≤ q^10000`, `q = 1 − 2∫T < 1` the rejection probability of one candidate (the loop of the code is
+bounded by 10000 attempts, so the defect is the probability that all of them are rejected).
 -/
 namespace PMH.C16
 open PMH PMH.RA
@@ -44,5 +47,60 @@ theorem rejection_mass (lam : ℝ) (hl : 0 < lam) : ∫ x in (0:ℝ)..1, T lam x
 
 /-! non-vacuity: a concrete stream for λ = ln 2 (m = 2) -/
 example : (0 : ℝ) < Real.log 2 := Real.log_pos (by norm_num)
+
+
+/-! ### the law of the sampler (measure theory; `Proofs/Exp01Law.lean`) -/
+section Law
+open MeasureTheory ProbabilityTheory Set PMH.Exp01Law
+
+/-- **C16 (e)** the three acceptance tests of the code, in the order it evaluates them, accept exactly the
+points under the curve `T` -/
+theorem acceptance_is_under_curve {lam : ℝ} (hl : 0 < lam) (x y : ℝ) : accept lam x y ↔ y ≤ T lam x :=
+  accept_iff hl x y
+
+/-- **C16 (f)** the Fubini step: the accepted candidates with abscissa in `A` have Lebesgue measure `∫_A T` -/
+theorem accepted_region_measure {lam : ℝ} (hl : 0 < lam) {A : Set ℝ} (hA : MeasurableSet A) (hA01 : A ⊆ Ico 0 1) :
+    volume {q : ℝ × ℝ | q.1 ∈ A ∧ 0 ≤ q.2 ∧ q.2 < 1 ∧ accept lam q.1 q.2} = ENNReal.ofReal (∫ x in A, T lam x) :=
+  volume_accept hl hA hA01
+
+/-- **C16 (g)** LAW OF THE MODEL: on any probability space with i.i.d. uniform `[0,1)` draws `U 0, U 1, …`,
+the probability that `Exp01.sample` returns a value in `A ⊆ [0,1)` is `∫_A densN λ 10000`, where
+`densN λ n x = 1/c1 + (1−1/c1)(1−q^n) T(x)/I` tends to `λe^{−λx}/(1−e^{−λ})` (`densN_tendsto`). -/
+theorem sample_law {lam : ℝ} (hl : 0 < lam) {A : Set ℝ} (hA : MeasurableSet A) (hA01 : A ⊆ Ico 0 1)
+    {Ω : Type*} [MeasurableSpace Ω] (μ : Measure Ω) [IsProbabilityMeasure μ]
+    (U : ℕ → Ω → ℝ) (hU : ∀ i, Measurable (U i)) (hind : iIndepFun U μ)
+    (hunif : ∀ i, μ.map (U i) = volume.restrict (Ico (0:ℝ) 1)) :
+    μ {ω | ∃ x ∈ A, ∃ g', Exp01.sample realOps (Exp01.new realOps lam) (nextN fun i => U i ω) 0 = .ok (x, g')} =
+      ENNReal.ofReal (∫ x in A, densN lam 10000 x) :=
+  sample_law_iid hl hA hA01 μ U hU hind hunif
+
+/-- **C16 (h)** DISTRIBUTION FUNCTION of the property, for the model with its 10000-attempt bound:
+`P(sample < x) = (1−e^{−λx})/(1−e^{−λ}) − δ`, `δ = (1−1/c1)·q^10000·J[0,x)` -/
+theorem sample_distribution_function {lam : ℝ} (hl : 0 < lam) {x : ℝ} (hx0 : 0 ≤ x) (hx1 : x ≤ 1)
+    {Ω : Type*} [MeasurableSpace Ω] (μ : Measure Ω) [IsProbabilityMeasure μ]
+    (U : ℕ → Ω → ℝ) (hU : ∀ i, Measurable (U i)) (hind : iIndepFun U μ)
+    (hunif : ∀ i, μ.map (U i) = volume.restrict (Ico (0:ℝ) 1)) :
+    μ {ω | ∃ y ∈ Ico (0:ℝ) x, ∃ g', Exp01.sample realOps (Exp01.new realOps lam) (nextN fun i => U i ω) 0 = .ok (y, g')} =
+      ENNReal.ofReal ((1 - Real.exp (-lam * x)) / (1 - Real.exp (-lam)) -
+        (1 - 1 / (par lam).c1) * q lam ^ 10000 * J lam (Ico 0 x)) :=
+  sample_cdf_iid hl hx0 hx1 μ U hU hind hunif
+
+/-- the fuel defect is between 0 and `q^10000`, and `0 ≤ q < 1` -/
+theorem fuel_defect_bounds {lam : ℝ} (hl : 0 < lam) {x : ℝ} (hx0 : 0 ≤ x) (hx1 : x ≤ 1) :
+    0 ≤ (1 - 1 / (par lam).c1) * q lam ^ 10000 * J lam (Ico 0 x) ∧
+    (1 - 1 / (par lam).c1) * q lam ^ 10000 * J lam (Ico 0 x) ≤ q lam ^ 10000 ∧ 0 ≤ q lam ∧ q lam < 1 :=
+  ⟨(sample_cdf hl hx0 hx1 20000 le_rfl).2.1, (sample_cdf hl hx0 hx1 20000 le_rfl).2.2, q_nonneg hl, q_lt_one hl⟩
+
+/-- without the attempt bound the limit is exactly the distribution function of the property -/
+theorem distribution_function_limit {lam : ℝ} (hl : 0 < lam) {x : ℝ} (hx0 : 0 ≤ x) (hx1 : x ≤ 1) :
+    Filter.Tendsto (fun n => ∫ t in Ico (0:ℝ) x, densN lam n t) Filter.atTop
+      (nhds ((1 - Real.exp (-lam * x)) / (1 - Real.exp (-lam)))) := cdf_tendsto hl hx0 hx1
+
+/-- non-vacuity: an i.i.d. uniform sequence exists (coordinates of the infinite product measure) -/
+theorem iid_uniform_draws_exist :
+    ∃ (Ω : Type) (_ : MeasurableSpace Ω) (μ : Measure Ω) (_ : IsProbabilityMeasure μ)
+      (U : ℕ → Ω → ℝ), (∀ i, Measurable (U i)) ∧ iIndepFun U μ ∧
+        ∀ i, μ.map (U i) = volume.restrict (Ico (0:ℝ) 1) := iid_uniform_exists
+end Law
 
 end PMH.C16
